@@ -14,7 +14,7 @@ func init() {
 
 var srcC05b = []*g2lTarget{
 	{
-		file: "verifier/verifier.go", recv: "verifier", fn: "verifyRevocation", leanName: "verifyRevocation",
+		file: "verifier/verifier.go", recv: "verifier", fn: "verifyRevocation", leanName: "verifyRevocation", recvName: "v",
 		params:    "(v : c05.verifier) (outcome : c05.VerificationOutcome)",
 		ret:       "«notation».ValidationResult",
 		retOpt:    []bool{false},
